@@ -16,6 +16,16 @@ STRUCT_FUNCS = {"struct.pack": "pack", "struct.unpack": "unpack", "struct.unpack
                 "struct.calcsize": "calcsize"}
 
 
+def _self_rooted(atoms) -> bool:
+    for a in atoms:
+        inner = a[4:-1] if a.startswith("len(") and a.endswith(")") else a
+        if not inner.startswith("self."):
+            return False
+        if atom_deps(a)[0] - {"self"}:
+            return False
+    return bool(atoms)
+
+
 class Origin:
     __slots__ = ("func", "node", "kind", "exc", "message", "file", "line")
 
@@ -111,7 +121,11 @@ class CallMixin:
         if alias and node is alias[0]:
             node = alias[1]
         from .absint import Ob
+        from .report import norm
         fi = self.fi
+        if not ok and self.cfg.exempt_ops and (fi.qualname, kind, norm(unparse(node))) in self.cfg.exempt_ops:
+            ok = True
+            by = "exemption table"
         key = (self.ctx, fi.qualname, id(node), kind)
         self.obs[key] = Ob(func=fi.qualname, node=node, kind=kind, exc=exc, ok=ok, message=message, by=by,
                            ctx=self.ctx, chain=tuple(self.chain), status=status)
@@ -213,6 +227,9 @@ class CallMixin:
             self_arg = f.value if isinstance(f, ast.Attribute) else None
             return self.call_targets(st, e, cs.targets, argvals, list(e.args), kwvals, self_arg=self_arg,
                                      recv_val=recv_val, kwnodes={k.arg: k.value for k in e.keywords if k.arg})
+        dc = self._dataclass_result(e, argvals, kwvals)
+        if dc is not None:
+            return st, dc
         # external callee
         for exn in self.cfg.ext_raises.get(ext, []):
             self.may_raise(st, e, exn, "ext", f"external call {ext}")
@@ -220,6 +237,10 @@ class CallMixin:
             st = self.kill_heap(st)
         taint = any(v.taint for v in argvals) or (recv_val is not None and recv_val.taint)
         kind = self.static_kind(e)
+        if isinstance(f, ast.Attribute) and f.attr in self.cfg.taint_call_attrs:
+            return st, AVal(kind=self.cfg.taint_call_attrs[f.attr], taint=True)
+        if ext == "asyncio.wait_for" and argvals:
+            return st, argvals[0]
         if ext in ("time.time",):
             return st, AVal(kind="float", lo=0)
         if ext in ("math.ceil", "math.floor") and argvals:
@@ -403,6 +424,21 @@ class CallMixin:
                                 f"`{unparse(e)}` raises if the element is absent")
             # length effect
             delta = {"append": 1, "appendleft": 1, "add": None, "insert": 1}.get(attr, None)
+            if attr in ("append", "appendleft", "add") and argvals and not self.__dict__.get("_quiet", 0):
+                av = argvals[-1]
+                if isinstance(f.value, ast.Name):
+                    nv = self.name_val(f.value.id)
+                    vals = self.__dict__.setdefault("_name_vals", {})
+                    base = nv.copy() if nv is not None else AVal(kind=bkind)
+                    base.elem = av if base.elem is None else (self.join_vals(base.elem, av) or av)
+                    base.elems = None
+                    base.length = None
+                    base.const = NOCONST
+                    vals[(self.ctx, self.fi.qualname, f.value.id)] = base
+                elif isinstance(f.value, ast.Attribute):
+                    self.note_attr_val(f.value.attr, AVal(kind=bkind, elem=av, taint=av.taint))
+                    if av.taint and f.value.attr not in self.tainted_attrs:
+                        self.tainted_attrs.add(f.value.attr)
             if la is not None and attr in ("append", "appendleft", "insert") and bkind in ("list", "deque"):
                 a = self.atom_of(f.value)
                 fct = st.f.subst_atom(la, Lin.atom(la) - Lin.const(1))
@@ -427,9 +463,9 @@ class CallMixin:
         if bkind == "dict" and attr in ("items", "keys", "values"):
             return st, AVal(kind="list", length=recv.length, taint=taint)
         if bkind in ("list", "deque") and attr == "index":
-            if argvals and argvals[0].taint:
+            if argvals and argvals[0].taint and recv.taint:
                 self.may_raise(st, e, "ValueError", "index", "list.index of an absent element")
-            return st, AVal(kind="int", lo=0, taint=taint)
+            return st, AVal(kind="int", lo=0, taint=recv.taint)
         if bkind in ("list", "set", "dict", "deque") and attr == "copy":
             return st, AVal(kind=bkind, length=recv.length, taint=taint, elem=recv.elem)
         if bkind == "bytes" and attr in ("find", "index", "count"):
@@ -572,13 +608,16 @@ class CallMixin:
             if flo <= v.const <= fhi:
                 return
         if lo is not None and hi is not None and lo >= flo and hi <= fhi:
+            if v.src == "heap":
+                self.skip(key_node, "pack", "range known only through name-based heap flow; not used to discharge")
+                return
             self.oblige(st, key_node, "pack", "struct.error", True, f"value fits '{ch}'", by=f"[{lo},{hi}] within [{flo},{fhi}]")
             return
         if v.maybe_none:
             self.oblige(st, key_node, "pack", "struct.error", False, f"value `{unparse(node)}` may be None when packed as '{ch}'")
             return
         definite = (lo is not None and lo < flo) or (hi is not None and hi > fhi)
-        if definite and (lo is not None and hi is not None):
+        if definite and (lo is not None and hi is not None) and v.taint:
             self.oblige(st, key_node, "pack", "struct.error", False,
                         f"value `{unparse(node)}` ranges over [{lo},{hi}] but format '{ch}' holds [{flo},{fhi}]")
             return
@@ -596,6 +635,7 @@ class CallMixin:
         writes_all = False
         seen: Set[str] = set()
         depth_ok = len(self.chain) < 40
+        last_summ = None
         for tg in targets:
             if tg.qualname in seen:
                 continue
@@ -603,11 +643,22 @@ class CallMixin:
             w, wa = self.writes(tg)
             all_writes |= w
             writes_all = writes_all or wa
-            if quiet or not depth_ok:
+            if not depth_ok:
                 continue
             pvals, facts, tainted, sig = self._bind(st, tg, argvals, argnodes, kwvals, kwnodes or {}, self_arg, recv_val, bind_self_only)
-            summ = self.analyze(tg, sig, facts, tainted, pvals)
-            for exc_name, wits in summ.raises.items():
+            # a call on the same object from inside one of its methods: the object may be mid-update, so the
+            # callee is analysed with the caller's facts only, not with the class invariant assumed
+            assume_inv = not (isinstance(self_arg, ast.Name) and self_arg.id == "self")
+            if quiet and not self.__dict__.get("_inv_mode", 0):
+                summ = self.memo.get((tg.qualname, sig, assume_inv))
+                if summ is None:
+                    first = False
+                    ret = None
+                    continue
+            else:
+                summ = self.analyze(tg, sig, facts, tainted, pvals, assume_inv=assume_inv)
+            last_summ = summ
+            for exc_name, wits in ({} if quiet else summ.raises).items():
                 for wit in wits:
                     site = f"{fi.module.relpath}:{getattr(node, 'lineno', 0)} {fi.qualname}: `{unparse(node)[:80]}`"
                     self.interp.raise_exc(exc_name, st, node, [wit[0]] + [site] + list(wit[1:]))
@@ -617,10 +668,27 @@ class CallMixin:
             ret = r if first else (self.join_vals(ret, r) if r is not None and ret is not None else None)
             first = False
         # effects on the caller's facts
+        held = self.held_invariants(st) if (writes_all or all_writes) else []
         if writes_all or any(t.is_async for t in targets):
             st = self.kill_heap(st)
         elif all_writes:
             st = self.kill_heap(st, all_writes)
+        if held:
+            st = self.restore(st, held)
+        # a method called on the same object: what holds about self.* at its exits holds here afterwards
+        if len(seen) == 1 and isinstance(self_arg, ast.Name) and self_arg.id == "self" and last_summ is not None \
+                and last_summ.exit is not None and not any(t.is_async for t in targets):
+            f = st.f
+            for G in last_summ.exit.ge:
+                if _self_rooted(G.atoms()):
+                    f2 = f.add_ge(G); f = f2 if f2 is not None else f
+            for E in last_summ.exit.eq:
+                if _self_rooted(E.atoms()):
+                    f2 = f.add_eq(E); f = f2 if f2 is not None else f
+            for p in last_summ.exit.preds:
+                if p[0] in ("flo", "fhi", "notnone", "none") and isinstance(p[1], str) and _self_rooted([p[1]]):
+                    f = f.add_pred(p)
+            st = st.with_f(f) or st
         for tg in targets:
             mp = self.mutated_params(tg)
             if not mp:
@@ -633,6 +701,18 @@ class CallMixin:
             for k, an in (kwnodes or {}).items():
                 if k in mp:
                     st = self.mutated(st, an)
+        if ret is not None:
+            same_self = isinstance(self_arg, ast.Name) and self_arg.id == "self"
+
+            def clean(L):
+                if L is None or L.is_const():
+                    return L
+                if same_self and all(a.startswith("self.") or a.startswith("len(self.") for a in L.atoms()):
+                    return L
+                return None
+            ret = ret.copy()
+            ret.lin = clean(ret.lin)
+            ret.length = clean(ret.length)
         if ret is None:
             kinds = {self.static_kind(node)} if isinstance(node, ast.expr) else set()
             ret = AVal(kind=kinds.pop() if kinds else None, taint=any(v.taint for v in argvals))
@@ -640,10 +720,58 @@ class CallMixin:
             ret = ret.copy()
             if ret.kind is None and isinstance(node, ast.expr):
                 ret.kind = self.static_kind(node)
+        if any(t.qualname in self.cfg.taint_returns for t in targets):
+            ret = ret.copy()
+            ret.taint = True
+            if ret.kind is None:
+                ret.kind = self.cfg.taint_returns.get(targets[0].qualname)
         # constructors return instances
         if targets and all(t.name in ("__init__", "__post_init__") for t in targets):
             ret = AVal(kind="obj", taint=any(v.taint for v in argvals) or any(v.taint for v in kwvals.values()))
+        if isinstance(node, ast.Call):
+            dc = self._dataclass_result(node, argvals, kwvals)
+            if dc is not None:
+                ret = dc
         return st, ret
+
+    def _dataclass_result(self, node: ast.Call, argvals: List[AVal], kwvals: Dict[str, AVal]) -> Optional[AVal]:
+        ci = self._dataclass_of(node)
+        if ci is None:
+            return None
+        ret = AVal(kind="obj", taint=any(v.taint for v in argvals) or any(v.taint for v in kwvals.values()))
+        fields: Dict[str, AVal] = {}
+        names: List[str] = []
+        for c in reversed(self.prog.mro(ci)):
+            for n in c.ann:
+                if n not in names:
+                    names.append(n)
+        for c in self.prog.mro(ci):
+            for n, dflt in c.attrs.items():
+                if n in names and n not in fields:
+                    cv = self.prog.try_const(dflt, c.module, c, default=NOCONST)
+                    if cv is not NOCONST:
+                        fields[n] = AVal.of_const(cv)
+        for i, v in enumerate(argvals):
+            if i < len(names):
+                fields[names[i]] = v
+        for k, v in kwvals.items():
+            fields[k] = v
+        if not self.__dict__.get("_quiet", 0):
+            for k, v in fields.items():
+                if v.taint and k not in self.tainted_attrs:
+                    self.tainted_attrs.add(k)
+                if v.elem is not None or v.elems is not None:
+                    self.note_attr_val(k, v)
+        ret.fields = fields
+        return ret
+
+    def _dataclass_of(self, call: ast.Call):
+        t = self.types.type_of(call.func, self.fi)
+        from .types import members
+        ms = members(t)
+        if len(ms) == 1 and ms[0][0] == "cls" and ms[0][1].is_dataclass and "__init__" not in ms[0][1].methods:
+            return ms[0][1]
+        return None
 
     def _bind(self, st: St, tg: FuncInfo, argvals, argnodes, kwvals, kwnodes, self_arg, recv_val, bind_self_only):
         params = [p.arg for p in tg.pos_params]
@@ -661,9 +789,25 @@ class CallMixin:
         elif tg.kind == "classmethod" and params:
             off = 1
         if not bind_self_only:
+            star = None
             for i, v in enumerate(argvals):
+                an = argnodes[i] if i < len(argnodes) else None
+                if isinstance(an, ast.Starred):
+                    star = (i, v)
+                    break
                 if i + off < len(params):
-                    binding[params[i + off]] = (v, argnodes[i] if i < len(argnodes) else None)
+                    binding[params[i + off]] = (v, an)
+            if star is not None:
+                i0, sv = star
+                elems = sv.elems if sv.elems is not None else (sv.elem.elems if sv.elem is not None and sv.elem.elems is not None else None)
+                for j, pn in enumerate(params[i0 + off:]):
+                    if elems is not None and j < len(elems):
+                        ev_ = elems[j].copy()
+                        ev_.lin = None
+                        ev_.taint = ev_.taint or sv.taint
+                        binding[pn] = (ev_, None)
+                    else:
+                        binding[pn] = (AVal(taint=sv.taint), None)
             for k, v in kwvals.items():
                 if k in params or k in kwonly:
                     binding[k] = (v, kwnodes.get(k))
@@ -690,6 +834,12 @@ class CallMixin:
         for p, (v, an) in sorted(binding.items()):
             if v is None:
                 v = AVal()
+            if v.maybe_none and an is not None:
+                ann = tg.param_annotation(p)
+                if ann is not None and unparse(ann) in ("int", "float"):
+                    self.none_ob(st, an, v)
+                    v = v.copy()
+                    v.maybe_none = False
             pv = AVal(kind=v.kind, taint=v.taint, maybe_none=v.maybe_none, src=v.src)
             desc: List[Any] = [p, v.taint, v.maybe_none, v.kind]
             if v.const is not NOCONST and isinstance(v.const, (int, str, bytes, bool, type(None), float)):
@@ -725,6 +875,11 @@ class CallMixin:
                     pv.elem = v.elem
                     desc.append(("elem", v.elem.lo, v.elem.hi, v.elem.kind, v.elem.taint,
                                  tuple((x.lo, x.hi) for x in v.elem.elems) if v.elem.elems else None))
+            if v.lin is not None and not v.lin.is_const() and isinstance(self_arg, ast.Name) and self_arg.id == "self" \
+                    and _self_rooted(v.lin.atoms()):
+                f2 = facts.add_eq(Lin.atom(p) - v.lin)
+                facts = f2 if f2 is not None else facts
+                desc.append(("lin", repr(v.lin)))
             if v.taint:
                 tainted.add(p)
             pvals[p] = pv
@@ -733,6 +888,8 @@ class CallMixin:
                 if a is not None:
                     renames.append((a, p))
             sig_items.append(tuple(desc))
+        if tg.parent is not None and ("self", "self") not in renames:
+            renames.append(("self", "self"))  # closures see the enclosing method's self
         # facts about attribute paths rooted at renamed arguments (and at self for same-object calls)
         same_self = False
         if renames:
@@ -757,8 +914,6 @@ class CallMixin:
                 wrap = True
             for src, dst in renames:
                 if inner == src:
-                    if not wrap and "." not in src and "[" not in src:
-                        return None  # value of the argument itself is passed via pvals
                     out = dst
                 elif inner.startswith(src + ".") or inner.startswith(src + "["):
                     out = dst + inner[len(src):]
